@@ -57,8 +57,11 @@ type Engine struct {
 	stdGlobal map[string]bool // stdlib globals read without init (evidence/assumption)
 	errStrT   types.Type
 	job       *jobCtx
-	Findings  []Finding
-	Verbose   bool
+	// restrictSeq counts events that restrict the set of inputs on a path (assumptions, structural
+	// choices, key-match forks); regions during which it did not move keep their entry condition.
+	restrictSeq int
+	Findings    []Finding
+	Verbose     bool
 }
 
 // Load builds the SSA program for the given package patterns (resolved from dir, normally /verif).
